@@ -9,11 +9,11 @@ package reporting
 // Window of the original line that survives truncation, as a function of the line length L, the
 // display limit M and the 0-based reported byte p0 (helper definitions, derived from the code):
 
-//@ pure func c19p0(L int, pos int) int = pos-1 < 0 ? 0 : (pos-1 >= L ? L-1 : pos-1)
-//@ pure func c19lo(L int, M int, p0 int) int = p0 < M-3 ? 0 : (p0 >= L-M+3 ? L-M+3 : p0-(M-3)/2)
-//@ pure func c19hi(L int, M int, p0 int) int = p0 < M-3 ? M-3 : (p0 >= L-M+3 ? L : p0+((M-3)-(M-3)/2))
-//@ pure func c19pre(lo int) string = lo > 0 ? "..." : ""
-//@ pure func c19suf(hi int, L int) string = hi < L ? "..." : ""
+//@ macro func c19p0(L int, pos int) int = pos-1 < 0 ? 0 : (pos-1 >= L ? L-1 : pos-1)
+//@ macro func c19lo(L int, M int, p0 int) int = p0 < M-3 ? 0 : (p0 >= L-M+3 ? L-M+3 : p0-(M-3)/2)
+//@ macro func c19hi(L int, M int, p0 int) int = p0 < M-3 ? M-3 : (p0 >= L-M+3 ? L : p0+((M-3)-(M-3)/2))
+//@ macro func c19pre(lo int) string = lo > 0 ? "..." : ""
+//@ macro func c19suf(hi int, L int) string = hi < L ? "..." : ""
 
 //@ func truncateString
 //@   props C19 C10
